@@ -445,11 +445,26 @@ class Session:
             self.observe(uri, model, kinds, ev, full)
             for n, st in enumerate(s["steps"]):
                 changes = []
+                # Every other script sends the deprecated `rangeLength` as well (vscode-languageclient does): the
+                # length of the replaced text in UTF-16 units, computed on the editor's text as it is when this
+                # change of the notification applies.  The range stays authoritative (LSP 3.17).
+                with_len = (s.get("id", 0) + n) % 2 == 0
+                interim = model
                 for ch in st["changes"]:
                     c = {"text": ch["text"]}
                     if not ch["full"]:
                         c["range"] = {"start": {"line": ch["l1"], "character": ch["c1"]},
                                       "end": {"line": ch["l2"], "character": ch["c2"]}}
+                        if with_len:
+                            try:
+                                a, b = to_index(interim, ch["l1"], ch["c1"]), to_index(interim, ch["l2"], ch["c2"])
+                                c["rangeLength"] = sum(w16(x) for x in interim[a:b])
+                            except ValueError:
+                                pass
+                    try:
+                        interim = apply_changes(interim, [ch])
+                    except ValueError:
+                        pass
                     changes.append(c)
                 self.call("incr", "Change", lambda: A.notify("textDocument/didChange", {
                     "textDocument": {"uri": uri, "version": n + 2}, "contentChanges": changes}))
